@@ -74,3 +74,15 @@ def fill(claim, NA):
 		  "predicate on the real objects; level conversions vs model. Builders' topology/attribute placement and derived BOM views: reference predicates in the harness (labelled tests).",
 		  "Trusted: Lean kernel + 3 axioms; harness. Modelled not verified: supply_chain_network.py:468-719, supply_chain_node.py:1860-1938, 1598-1674 (Model/Graph.lean). "
 		  "NetworkX reachability is a black box re-implemented in the model. Product/BOM mutators, builders and build_node_data_dict are not in the Lean model.")
+
+	claim('C19',
+		  "Theorems (Props/C19.lean): mem_cartesian + enum_argmin (enumeration returns a grid vector, reported cost = objective there, no grid vector has lower objective; "
+		  "first minimiser) + enum_total; grouped_share_level; golden-section search: gssStep_inv / gssStep_nested / gss_bracket (for every strictly unimodal f the minimiser "
+		  "stays bracketed after any number of steps and brackets are nested - under the per-run side condition allOrdered that the driver evaluates), gss_result (returned point and "
+		  "minimiser both in the final bracket), gss_reports_value (second component = f(x*), degenerate interval included); grid_step, grid_defaults (explicit 0 is a bound). "
+		  "Tie: golden_section_search vs the exact-rational model with the code's own double constants (x*, f(x*) to 1e-9, evaluation count exactly), every line search; "
+		  "meio_by_enumeration on serial networks (explicit / (lo,hi,step) / (lo,hi,num) / default grids, groups) vs model minimum over the documented grid (by objective value, never index); "
+		  "truncate_and_discretize vs model. Coordinate descent: in-box, reported = f(result), no worse than start up to line-search resolution - evaluated on the Python result (labelled test).",
+		  "Trusted: Lean kernel + 3 axioms; harness. FP: golden ratio constants are doubles, Python rounds every step (x* compared to 1e-9), step count n uses math.log/ceil. "
+		  "The unconditional bracket theorem needs r*r = 1-r (real golden ratio, no rational satisfies it): open target; proved form is conditional on allOrdered, checked per run. "
+		  "Simulation-based objectives are exercised Python-side only.")
